@@ -116,7 +116,9 @@ def strip_attrs(tokl):
     return out
 
 
-def lower(text, report=None):
+def lower(text, report=None, probes=()):
+    """probes: names of functions at whose entry a reachability assertion is inserted
+    (used by the C18 footprint check for functions that own function-local statics)"""
     toks = tokenize(text)
     code = [t for t in toks]  # includes markers; indices into toks
     edits = []  # (start, end, replacement)
@@ -143,6 +145,14 @@ def lower(text, report=None):
                 p -= 1
             close = match_fwd(toks, k, '{', '}')
             if p >= 0 and toks[p][1] == ')':
+                if probes:
+                    lp = match_back(toks, p, '(', ')')
+                    nm = lp - 1
+                    while nm >= 0 and toks[nm][0] == 'marker':
+                        nm -= 1
+                    if nm >= 0 and toks[nm][0] == 'id' and toks[nm][1] in probes:
+                        edits.append((toks[k][3], toks[k][3],
+                                      ' __CPROVER_assert(0, "C18: function %s, which owns function-local static data, is not reached from the sign/verify path"); ' % toks[nm][1]))
                 _lower_function(toks, p, k, close, edits, lowered)
             k = close + 1
             continue
